@@ -70,7 +70,7 @@ func (p *Program) skipInit(pkgPath string) bool {
 	}
 	// every standard package whose functions run from source has its initialiser run too: their package-level tables
 	// (strings.asciiSpace, utf8.first, utf8.acceptRanges) are data the functions read
-	if execStdPkgs[pkgPath] {
+	if execStdPkgs[pkgPath] && !strings.Contains(","+os.Getenv("GOSMT_SKIPINIT")+",", ","+pkgPath+",") {
 		return false
 	}
 	if !strings.HasPrefix(pkgPath, RepoModule) {
